@@ -312,13 +312,23 @@ def _d5(chk, fb):
     chk.floor("D5", "HMM classes with user copy constructor and operator=", n, 5)
 
 
+def _d6(chk, fb):
+    """the log-space recursions of LogsumHmmLikelihood rest on NumTools::logsum: same rule as C07 D3 (shift by the larger operand)"""
+    from . import c07
+    users = [f for f in fb.concrete_fns() if f.body is not None and (f.cls or "").endswith("LogsumHmmLikelihood") and any(c["callee"]["name"] == "logsum" for c in f.calls())]
+    chk.floor("D6", "LogsumHmmLikelihood members calling NumTools::logsum", len(users), 1)
+    c07.logsum_rule(chk, fb, "D6")
+
+
 def run(chk, fb, tier):
     chk.rule("D1", "every fireParameterChanged below AbstractHmmLikelihood resets the derivative memo keys and clears the backward lazy flags on every path that recomputes the forward pass")
     chk.rule("D2", "a method setting upToDate_ = true has written every member that some getter returns under 'if (!upToDate_)'; fireParameterChanged clears the flag unconditionally")
     chk.rule("D3", "the three fireParameterChanged siblings perform the same guarded component updates and recompute afterwards")
     chk.rule("D5", "user-provided copy constructor and operator= copy the same members")
+    chk.rule("D6", "NumTools::logsum, on which the log-space forward/backward recursions rest, takes exp() only of (smaller - larger) and tests equal infinities first")
     _d1(chk, fb)
     _d2(chk, fb)
     _d3(chk, fb)
     _d5(chk, fb)
+    _d6(chk, fb)
     chk.assume("memo keys are compared with variable names; the empty string is never a variable name")
